@@ -56,8 +56,10 @@ CLAIMS = {
     "C06": dict(
         text="Exact limit comparison on both sides for ALL limits (any Option<usize>) and all declared lengths up to 2^32-1: decode accepts "
              "iff BE length <= limit, refuses with OUT_OF_RANGE in the call that consumed the prefix without growing the buffer; encode "
-             "refuses iff len > limit; an oversized message never takes earlier frames of the same batch with it (one-step differential).",
-        note="Outside: the > 4 GiB RESOURCE_EXHAUSTED arm (no real buffer of that size exists under CBMC), both roles end-to-end.",
+             "refuses iff len > limit; finish_encoding for EVERY slice length up to isize::MAX (fabricated slice, only the 5 prefix bytes are "
+             "touched): accepted iff len <= limit and len <= u32::MAX, RESOURCE_EXHAUSTED beyond 4 GiB, nothing written on refusal; an "
+             "oversized message never takes earlier frames of the same batch with it (one-step differential).",
+        note="Outside: encode_item producing a > 4 GiB payload (only finish_encoding sees such a length here), both roles end-to-end.",
         ref="§4 C06"),
     "C07": dict(
         text="For every buffer of the stated sizes, every limit, every direction: decode_chunk never panics and classifies flag/length "
@@ -91,7 +93,9 @@ CLAIMS = {
         text="Narrowed to the Reconnect state machine: from EVERY state and for EVERY fault script of k events one poll_ready + one call "
              "never panics ('service not ready' unreachable), reports an eager initial failure immediately, parks any other connect "
              "failure for exactly one call (with the id of the failed attempt) and clears it, never re-polls a completed connect future, "
-             "starts no new attempt while an error is undelivered, and reaches the connection once connector and connection are ready.",
+             "starts no new attempt while an error is undelivered, reaches the connection once connector and connection are ready, and "
+             "never reverts has_been_connected (inductive invariant: only the very first failure of an eager channel can surface from "
+             "poll_ready, so a later outage cannot kill the channel).",
         note="Outside: tower Buffer worker, hyper connection tasks, Endpoint::connect*: the end-to-end 'every call completes'.",
         ref="§4 C14"),
     "C16": dict(
